@@ -126,7 +126,7 @@ func (s *Service) proxyToSingleEndpoint(ctx context.Context, w http.ResponseWrit
 		}
 	}
 
-	w.WriteHeader(resp.StatusCode)
+	w.WriteHeader(core.RelayableStatus(resp.StatusCode))
 
 	// Stream the response through with Olla's optimizations
 	rlog.Debug("starting response stream")
